@@ -130,4 +130,16 @@ CHECKS["C10"] = {
     "assumptions": COMMON_ASSUMPTIONS + ["a log sink at trace level is installed, as any real user has a logger"],
 }
 
+CHECKS["C12"] = {
+    "package": "seq", "bin": "c12", "flavor": "seq",
+    "shards": {"quick": 4, "thorough": 16},
+    "level": "exploration",
+    "technique": "runtime monitoring: robustness monitor (catch_unwind per call, trace-level log sink, watchdog thread, health probe of every manager after every case) over rules sampled from the enum cross product x boundary/invalid numerics, loaded through every entry point; process restarted after a panic",
+    "rule": "cases = one rule of a family (flow: 6 calculate x 5 control strategies incl. custom with/without registered generator x relation to current / a seen / a never-seen / an empty resource x thresholds {0,.5,1,3,1e6,-1,NaN} x intervals {0,1,500,1000,1500,10000,600000} x warm-up and memory parameters; hotspot: metric x control (incl. custom) x param index -3..3 x keys x thresholds/burst/duration/capacity/overrides; circuit breaker: 5 strategies x retry x min amount x interval x bucket count x threshold incl. NaN; isolation; system: 5 metrics x 2 strategies x thresholds incl. NaN, -1, 101) x loading entry point {load_rules, load_rules_of_resource, append_rule} x 2-6 entries with batch {0,1,1e6}, no/empty/short/long argument lists, attachments, inbound/outbound, empty resource name, exits with and without error; distinct = distinct (rule class, valid?, entry point); every completed case is non-trivial",
+    "level_text": "is_valid()=Ok implies nothing panics or stalls while the rule is loaded and entries are built/exited; is_valid()=Err implies the rule never shows up in get_rules(); in both cases a health probe (load, query, enforce, clear on an unrelated resource for all five managers) must pass afterwards; exploration.",
+    "level_note": "Numerics stay inside the documented sane range plus the invalid values listed in the quantifier (infinite thresholds and huge LRU capacities are not generated). A stalled case is a violation only if it stalls again when re-run alone (otherwise inconclusive).",
+    "design_ref": "DESIGN.md §5 C12",
+    "assumptions": COMMON_ASSUMPTIONS + ["custom generators registered by the harness build controllers from the public constructors"],
+}
+
 NOT_APPLICABLE = {}
